@@ -101,7 +101,7 @@ func run(c *core.Ctx) {
 		if c.Thorough() {
 			for p := 0; p < 8; p++ {
 				api := "handshake"
-				if (si+p)%16 == 0 {
+				if (si+p)%48 == 0 { // paced (sessreal.tcpGate): keep the TCP share of the thorough tier at ~7 k calls
 					api = "connect"
 				}
 				jobs = append(jobs, sessreal.Job{Kind: "C07", Sc: sc, V07: sessreal.Variant07{SwapTags: p&1 != 0, SwapAddrs: p&2 != 0, SwapCmds: p&4 != 0, API: api}})
